@@ -106,11 +106,11 @@ func c03(c *q.Ctx) {
 	// ---- K7: block-application siblings refuse an output cited twice in one block
 	pu := c.Fn(st + "(*State).processUnconfirmTxs")
 	if pu != nil {
-		c.MapDedup(pu, "utxo.GenUtxoKey(p1.Transactions[].TxInputs[].FromAddr,p1.Transactions[].TxInputs[].RefTxid,p1.Transactions[].TxInputs[].RefOffset)", q.ToSuccess(), "PlayAndRepost path: an output cited twice inside one block is rejected")
+		c.MapDedup(pu, "utxo.GenUtxoKey(p1.Transactions[].TxInputs[].FromAddr,p1.Transactions[].TxInputs[].RefTxid,p1.Transactions[].TxInputs[].RefOffset)", q.ToSuccess(), "PlayAndRepost path: an output cited twice inside one block is rejected", "(#i < len(p1.Transactions))")
 	}
 	tb := c.Fn(st + "(*State).procTodoBlkForWalk")
 	if tb != nil {
-		c.MapDedup(tb, "utxo.GenUtxoKey(p1[#down].Transactions[].TxInputs[].FromAddr,p1[#down].Transactions[].TxInputs[].RefTxid,p1[#down].Transactions[].TxInputs[].RefOffset)", q.ToCall("State.doTxInternal"), "walk path: an output cited twice inside one block is rejected before anything is applied")
+		c.MapDedup(tb, "utxo.GenUtxoKey(p1[#down].Transactions[].TxInputs[].FromAddr,p1[#down].Transactions[].TxInputs[].RefTxid,p1[#down].Transactions[].TxInputs[].RefOffset)", q.ToCall("State.doTxInternal"), "walk path: an output cited twice inside one block is rejected before anything is applied", "(#i < len(p1[#down].Transactions))")
 	}
 	pr := c.Fn(st + "(*State).PlayAndRepost")
 	if pr != nil {
@@ -120,6 +120,8 @@ func c03(c *q.Ctx) {
 
 	// ---- pool dependency graph: edge from every pending producer to its consumer
 	poolGraph(c)
+	poolRollback(c)
+	utxoInverse(c)
 }
 
 // poolGraph: the pool's dependency graph links every pending transaction to every
@@ -137,5 +139,16 @@ func poolGraph(c *q.Ctx) {
 		c.Effect(su, q.Eff{Spec: "append", Arg: 0, Glob: "newmap<TxGraph>[" + m + "[]." + f + "[].RefTxid]", Req: []q.Cond{{Canon: "has(" + m + "," + m + "[]." + f + "[].RefTxid)", Sense: true}}, Exact: true, Keep: keep, Why: "an edge from every pending producer cited by " + f + " to the consumer, with no other condition", Rule: "K4"})
 		c.Effect(su, q.Eff{Spec: "append", Arg: 1, Glob: "[key(" + m + ")]", Why: "the consumer is the transaction whose inputs are scanned", Rule: "K4"})
 		c.StaysInLoop(su, q.Cond{Canon: "has(" + m + "," + m + "[]." + f + "[].RefTxid)", Sense: false}, q.Cond{Canon: "(#i < len(" + m + "[]." + f + "))"}, "an input citing a confirmed transaction must not hide the later inputs")
+	}
+}
+
+// poolRollback: undoUnconfirmedTx rolls back the graph's children of a transaction before the transaction
+// itself, looked up under the key the graph is built with (shared by C01, C02 and C03).
+func poolRollback(c *q.Ctx) {
+	const st = "bcs/ledger/xledger/state::"
+	if uu := c.Fn(st + "(*State).undoUnconfirmedTx"); uu != nil {
+		c.NeverAfter(uu, q.ToCall("State.undoTxInternal"), q.ToCall("State.undoUnconfirmedTx"), "dependants are rolled back before the transaction itself, never after")
+		c.ArgIs(uu, "State.undoUnconfirmedTx", 1, "p2[p3[p1.Txid][]]", 1, "the dependants are the graph's children of this transaction (the graph is keyed by the raw txid)")
+		c.Gate(uu, "State.undoUnconfirmedTx", q.ToCall("State.undoTxInternal"), q.Opt{K1Only: true})
 	}
 }
